@@ -128,4 +128,84 @@ theorem filter_append_singleton {α : Type} (p : α → Bool) (l : List α) (x :
     (l ++ [x]).filter p = if p x then l.filter p ++ [x] else l.filter p := by
   rw [List.filter_append]; cases h : p x <;> simp [h]
 
+/-! ### round 5: `enumerate` loops building index maps -/
+
+/-- a loop over `enumerate(l)` that ignores the index -/
+theorem foldl_zipIdx_fst {σ : Type} (h : σ → Nat → σ) (l : List Nat) (n : Nat) (init : σ) :
+    (l.zipIdx n).foldl (fun acc p => h acc p.1) init = l.foldl h init := by
+  induction l generalizing n init with
+  | nil => rfl
+  | cons x r ih => simp only [List.zipIdx_cons, List.foldl]; exact ih _ _
+
+/-- `for i, v in enumerate(l): m2b[v] = i` on a duplicate-free `l` -/
+theorem aGet_foldl_zipIdx_m2b (l : List Nat) (hn : l.Nodup) (n : Nat) (a : AMap Nat) (v : Nat) :
+    aGet ((l.zipIdx n).foldl (fun a p => aSet a p.1 p.2) a) v = if v ∈ l then some (n + l.idxOf v) else aGet a v := by
+  induction l generalizing n a with
+  | nil => simp
+  | cons x r ih =>
+    simp only [List.zipIdx_cons, List.foldl]
+    rw [ih (List.nodup_cons.1 hn).2, aGet_aSet]
+    have hx : x ∉ r := (List.nodup_cons.1 hn).1
+    by_cases hv : v = x
+    · subst hv
+      simp [hx]
+    · by_cases hr : v ∈ r
+      · have hxv : (x == v) = false := by simp; exact fun h => hv h.symm
+        simp only [hr, List.mem_cons, or_true, if_true, List.idxOf_cons, hxv, cond_false]
+        congr 1; omega
+      · simp [hr, hv]
+
+/-- `for i, v in enumerate(l): b2m[i] = v` -/
+theorem aGet_foldl_zipIdx_b2m (l : List Nat) (n : Nat) (a : AMap Nat) (i : Nat) :
+    aGet ((l.zipIdx n).foldl (fun a p => aSet a p.2 p.1) a) i
+      = if n ≤ i ∧ i < n + l.length then l[i - n]? else aGet a i := by
+  induction l generalizing n a with
+  | nil => simp; intro h; omega
+  | cons x r ih =>
+    simp only [List.zipIdx_cons, List.foldl]
+    rw [ih, aGet_aSet]
+    by_cases h1 : n + 1 ≤ i ∧ i < n + 1 + r.length
+    · have h2 : n ≤ i ∧ i < n + (x :: r).length := by simp; omega
+      simp only [h1, h2, and_self, if_true]
+      have : i - n = (i - (n + 1)) + 1 := by omega
+      rw [this, List.getElem?_cons_succ]
+    · simp only [h1, if_false]
+      by_cases hi : i = n
+      · subst hi; simp
+      · have h2 : ¬ (n ≤ i ∧ i < n + (x :: r).length) := by simp; omega
+        have : (i == n) = false := by simp [hi]
+        rw [if_neg h2]; simp [this]
+
+/-- a loop that appends one value per element, computed from the element and a part of the state it does not write -/
+theorem foldl_append_reading {σ τ β : Type} (getF : σ → List β) (getT : σ → τ) (f : σ → Nat → σ) (val : τ → Nat → β)
+    (l : List Nat) (hT : ∀ s x, getT (f s x) = getT s) (hF : ∀ s x, getF (f s x) = getF s ++ [val (getT s) x]) (s : σ) :
+    getF (l.foldl f s) = getF s ++ l.map (val (getT s)) := by
+  induction l generalizing s with
+  | nil => simp
+  | cons a r ih => simp only [List.foldl, List.map]; rw [ih, hF, hT]; simp
+
+/-- a loop whose step updates one part of the state from its element and a part it does not write -/
+theorem foldl_proj_reading {σ τ φ α : Type} (getF : σ → φ) (getT : σ → τ) (f : σ → α → σ) (g : τ → φ → α → φ)
+    (l : List α) (hT : ∀ s x, getT (f s x) = getT s) (hF : ∀ s x, getF (f s x) = g (getT s) (getF s) x) (s : σ) :
+    getF (l.foldl f s) = l.foldl (g (getT s)) (getF s) := by
+  induction l generalizing s with
+  | nil => rfl
+  | cons a r ih => simp only [List.foldl]; rw [ih, hF, hT]
+
+/-- `for i, x in enumerate(l): l[i] = val(x)` (each entry replaced in place while the list is enumerated) -/
+theorem foldl_listSet_zipIdx (val : List Nat → List Nat) (l pre : List (List Nat)) :
+    (l.zipIdx pre.length).foldl (fun acc p => listSet acc p.2 (val p.1)) (pre ++ l) = pre ++ l.map val := by
+  induction l generalizing pre with
+  | nil => simp
+  | cons x r ih =>
+    simp only [List.zipIdx_cons, List.foldl, List.map]
+    have h1 : listSet (pre ++ x :: r) pre.length (val x) = (pre ++ [val x]) ++ r := by
+      unfold listSet
+      rw [List.set_append_right _ _ (Nat.le_refl _)]
+      simp
+    rw [h1]
+    have := ih (pre ++ [val x])
+    simp only [List.length_append, List.length_singleton] at this
+    rw [this]; simp
+
 end Mouette.VolS
